@@ -157,3 +157,155 @@ CONTRACTS.append(Contract(
     loops={1: LoopSpec(target='v', types={'v': Opt(Ref('CIMInstanceName'))}, modifies=['array_xml'], invariant=ONE_PER_ITEM)},
     ensures=[('a-PARAMVALUE-element', 'isinstance(result, _cim_xml.PARAMVALUE)')],
     raises={}))
+
+# ---- 3. CIMMethod.tocimxml: METHOD.  The function reads .values() of two NocaseDicts with different item classes; the
+# engine has one element kind for NocaseDict.values() per contract, so the items are plain references here and their
+# tocimxml() is cut at one signature-only contract: it takes NO argument (a parameter is encoded as a declaration, a
+# call with as_value would not bind)
+child_tocimxml_c = Contract('external::child.tocimxml', sig=['self'], returns=Ref('Element'), trusted=True,
+                            notes='tocimxml() of a child object, called without arguments; proved per class above')
+ANY_CHILD = {'nocasedict.values': 'ref'}
+method_c = Contract(
+    X + 'METHOD.__init__', trusted=True, raises={},
+    requires=[('every-attribute-is-handed-over', COMMON + ' and return_type == caller_self.return_type'),
+              ('one-PARAMETER-child-per-parameter', 'len(parameters) == len(caller_self.parameters.values())'),
+              ('one-QUALIFIER-child-per-qualifier', QUALS)])
+CONTRACTS.append(Contract(
+    O + 'CIMMethod.tocimxml',
+    params={'self': Obj('CIMMethod', name=Str, return_type=Str, class_origin=Opt(Str), propagated=Opt(Bool),
+                        parameters=Ref('NocaseDict'), qualifiers=Ref('NocaseDict'))},
+    callees={'tocimxml': child_tocimxml_c, 'METHOD.__init__': method_c}, kinds=ANY_CHILD,
+    ensures=[('a-METHOD-element', 'isinstance(result, _cim_xml.METHOD)')],
+    raises={}))
+
+# ---- 4. CIMQualifierDeclaration.tocimxml: QUALIFIER.DECLARATION
+QDECL = dict(name=Str, type=Str, is_array=Bool, array_size=Opt(Int), scopes=Ref('NocaseDict'),
+             overridable=Opt(Bool), tosubclass=Opt(Bool), toinstance=Opt(Bool), translatable=Opt(Bool))
+
+
+def qualifier_declaration_c(child, child_name):
+    return Contract(
+        X + 'QUALIFIER_DECLARATION.__init__', trusted=True, raises={},
+        requires=[('name-type-and-arrayness-are-handed-over',
+                   'name == caller_self.name and type_ == caller_self.type and is_array == caller_self.is_array '
+                   'and array_size == caller_self.array_size'),
+                  ('the-scopes-are-handed-over', 'qualifier_scopes is caller_self.scopes'),
+                  ('every-flavor-is-handed-over',
+                   'overridable == caller_self.overridable and tosubclass == caller_self.tosubclass '
+                   'and toinstance == caller_self.toinstance and translatable == caller_self.translatable'),
+                  ('NULL-value-means-no-value-child', '(value is None) == (caller_self.value is None)'),
+                  (f'the-value-child-is-a-{child_name}', f'value is None or isinstance(value, {child})')])
+
+
+CONTRACTS.append(Contract(
+    O + 'CIMQualifierDeclaration.tocimxml', label='scalar value',
+    params={'self': Obj('CIMQualifierDeclaration', value=SCALAR_VALUE, **QDECL)},
+    consts={'SEND_VALUE_NULL': Bool},
+    callees={'VALUE.__init__': value_c, 'QUALIFIER_DECLARATION.__init__': qualifier_declaration_c('VALUE', 'VALUE'),
+             'atomic_to_cim_xml': atomic_c},
+    ensures=[('a-QUALIFIER.DECLARATION-element', 'isinstance(result, _cim_xml.QUALIFIER_DECLARATION)')],
+    raises={}))
+CONTRACTS.append(Contract(
+    O + 'CIMQualifierDeclaration.tocimxml', label='array value',
+    params={'self': Obj('CIMQualifierDeclaration', value=Opt(ListOf(('opt', 'str'))), **QDECL)},
+    consts={'SEND_VALUE_NULL': Bool},
+    callees={'VALUE.__init__': value_c, 'VALUE_NULL.__init__': value_null_c, 'VALUE_ARRAY.__init__': value_array_c,
+             'QUALIFIER_DECLARATION.__init__': qualifier_declaration_c('VALUE_ARRAY', 'VALUE.ARRAY'),
+             'atomic_to_cim_xml': atomic_item_c},
+    kinds={'array_xml': 'ref'},
+    loops={1: LoopSpec(target='v', types={'v': Opt(Str)}, modifies=['array_xml'], invariant=ONE_PER_ITEM)},
+    ensures=[('a-QUALIFIER.DECLARATION-element', 'isinstance(result, _cim_xml.QUALIFIER_DECLARATION)')],
+    raises={}))
+
+# ---- 5. CIMClassName.tocimxml / CIMInstanceName.tocimxml: which path element, as a function of what the path has and of
+# what the caller wants ignored (docstrings: no namespace or ignore_namespace -> bare name; else no host or ignore_host
+# -> local path; else full path)
+PATH = dict(classname=Str, host=Opt(Str), namespace=Opt(Str))
+HAS_NS = '(self.namespace is not None and not ignore_namespace)'
+HAS_HOST = '(self.host is not None and not ignore_host)'
+# str.split is modelled by length facts only (exact when there is no separator): a one-component namespace is shown to
+# be handed over unchanged, for several components only "at least two NAMESPACE children" (A-BUILTIN: str.split)
+namespace_c = Contract(
+    X + 'NAMESPACE.__init__', trusted=True, raises={},
+    requires=[('a-one-component-namespace-is-handed-over-unchanged',
+               "implies('/' not in caller_self.namespace, name == caller_self.namespace)")])
+localnamespacepath_c = Contract(
+    X + 'LOCALNAMESPACEPATH.__init__', trusted=True, raises={},
+    requires=[('one-NAMESPACE-child-per-component',
+               "len(namespaces) >= 1 and ((len(namespaces) == 1) == ('/' not in caller_self.namespace))")])
+host_c = Contract(X + 'HOST.__init__', trusted=True, raises={},
+                  requires=[('the-host-of-the-path-is-handed-over', 'pcdata == caller_self.host')])
+namespacepath_c = Contract(
+    X + 'NAMESPACEPATH.__init__', trusted=True, raises={},
+    requires=[('HOST-then-LOCALNAMESPACEPATH',
+               'isinstance(host, HOST) and isinstance(localnamespacepath, LOCALNAMESPACEPATH)')])
+classname_c = Contract(X + 'CLASSNAME.__init__', trusted=True, raises={},
+                       requires=[('the-class-name-of-the-path-is-handed-over', 'classname == caller_self.classname')])
+localclasspath_c = Contract(
+    X + 'LOCALCLASSPATH.__init__', trusted=True, raises={},
+    requires=[('LOCALNAMESPACEPATH-then-CLASSNAME',
+               'isinstance(localnamespacepath, LOCALNAMESPACEPATH) and isinstance(classname, CLASSNAME)')])
+classpath_c = Contract(
+    X + 'CLASSPATH.__init__', trusted=True, raises={},
+    requires=[('NAMESPACEPATH-then-CLASSNAME', 'isinstance(namespacepath, NAMESPACEPATH) and isinstance(classname, CLASSNAME)')])
+NS_CALLEES = {'NAMESPACE.__init__': namespace_c, 'LOCALNAMESPACEPATH.__init__': localnamespacepath_c,
+              'HOST.__init__': host_c, 'NAMESPACEPATH.__init__': namespacepath_c}
+CONTRACTS.append(Contract(
+    O + 'CIMClassName.tocimxml',
+    params={'self': Obj('CIMClassName', **PATH), 'ignore_host': Bool, 'ignore_namespace': Bool},
+    callees=dict(NS_CALLEES, **{'CLASSNAME.__init__': classname_c, 'LOCALCLASSPATH.__init__': localclasspath_c,
+                                'CLASSPATH.__init__': classpath_c}),
+    ensures=[('no-namespace-gives-a-bare-CLASSNAME',
+              f'implies(not {HAS_NS}, isinstance(result, _cim_xml.CLASSNAME))'),
+             ('namespace-without-host-gives-a-LOCALCLASSPATH',
+              f'implies({HAS_NS} and not {HAS_HOST}, isinstance(result, _cim_xml.LOCALCLASSPATH))'),
+             ('namespace-and-host-give-a-CLASSPATH',
+              f'implies({HAS_NS} and {HAS_HOST}, isinstance(result, _cim_xml.CLASSPATH))')],
+    raises={}))
+
+# CIMInstanceName.tocimxml: the same three-way choice, and one KEYBINDING per key.  The keybindings (a NocaseDict) are
+# modelled as a dictionary with string keys
+KEYVAL = Union(Str, Bool, Int, Ref('CIMInstanceName'), Ref('Uint8'), Ref('Real32'), Ref('CIMDateTime'), Ref('Char16'))
+key_path_tocimxml_c = Contract(
+    O + 'CIMInstanceName.tocimxml', returns=Ref('Element'), trusted=True,
+    requires=[('a-reference-key-is-encoded-with-its-complete-path', 'not ignore_host and not ignore_namespace')])
+keyvalue_c = Contract(
+    X + 'KEYVALUE.__init__', trusted=True, raises={},
+    requires=[('VALUETYPE-is-one-of-the-DTD', "value_type in ('string', 'boolean', 'numeric')"),
+              ('VALUETYPE-agrees-with-TYPE',
+               "implies(cim_type is not None, (value_type == 'boolean') == (cim_type == 'boolean') and "
+               "(value_type == 'string') == (cim_type in ('string', 'char16', 'datetime')))"),
+              ('a-boolean-key-is-spelled-as-in-the-DTD', "implies(value_type == 'boolean', data == 'TRUE' or data == 'FALSE')")])
+keybinding_c = Contract(
+    X + 'KEYBINDING.__init__', trusted=True, raises={},
+    requires=[('the-name-is-a-key-of-the-path', 'name in caller_self.keybindings'),
+              ('KEYVALUE-or-VALUE.REFERENCE-child', 'isinstance(data, (KEYVALUE, VALUE_REFERENCE))')])
+instancename_c = Contract(
+    X + 'INSTANCENAME.__init__', trusted=True, raises={},
+    requires=[('the-class-name-of-the-path-is-handed-over', 'classname == caller_self.classname'),
+              ('one-KEYBINDING-per-key', 'isinstance(data, list) and len(data) == len(caller_self.keybindings.items())')])
+localinstancepath_c = Contract(
+    X + 'LOCALINSTANCEPATH.__init__', trusted=True, raises={},
+    requires=[('LOCALNAMESPACEPATH-then-INSTANCENAME',
+               'isinstance(localpath, LOCALNAMESPACEPATH) and isinstance(instancename, INSTANCENAME)')])
+instancepath_c = Contract(
+    X + 'INSTANCEPATH.__init__', trusted=True, raises={},
+    requires=[('NAMESPACEPATH-then-INSTANCENAME',
+               'isinstance(namespacepath, NAMESPACEPATH) and isinstance(instancename, INSTANCENAME)')])
+CONTRACTS.append(Contract(
+    O + 'CIMInstanceName.tocimxml',
+    params={'self': Obj('CIMInstanceName', keybindings=MapOf('str', KEYVAL), **PATH), 'ignore_host': Bool, 'ignore_namespace': Bool},
+    callees=dict(NS_CALLEES, **{'CIMInstanceName.tocimxml': key_path_tocimxml_c, 'VALUE_REFERENCE.__init__': value_reference_of_path_c,
+                                'KEYVALUE.__init__': keyvalue_c, 'KEYBINDING.__init__': keybinding_c,
+                                'INSTANCENAME.__init__': instancename_c, 'LOCALINSTANCEPATH.__init__': localinstancepath_c,
+                                'INSTANCEPATH.__init__': instancepath_c}),
+    kinds={'kbs': 'ref'},
+    loops={1: LoopSpec(target='key, value', types={'key': Str, 'value': KEYVAL, 'value_type': Str, 'cim_type': Opt(Str)},
+                       modifies=['kbs'], invariant=[('one-KEYBINDING-per-key-so-far', 'len(kbs) == _i')])},
+    ensures=[('no-namespace-gives-a-bare-INSTANCENAME',
+              f'implies(not {HAS_NS}, isinstance(result, _cim_xml.INSTANCENAME))'),
+             ('namespace-without-host-gives-a-LOCALINSTANCEPATH',
+              f'implies({HAS_NS} and not {HAS_HOST}, isinstance(result, _cim_xml.LOCALINSTANCEPATH))'),
+             ('namespace-and-host-give-an-INSTANCEPATH',
+              f'implies({HAS_NS} and {HAS_HOST}, isinstance(result, _cim_xml.INSTANCEPATH))')],
+    raises={}))
